@@ -42,7 +42,9 @@ ASSUME TLCSet(42, 0)
 Ev == Trace[l]
 
 LrcOf(ps) == [k \in {ps[i][1] : i \in 1..Len(ps)} |-> ps[CHOOSE i \in 1..Len(ps) : ps[i][1] = k][2]]
-ResOf(res) == [i \in 1..Len(res) |-> [t |-> res[i][1], s |-> res[i][2], e |-> res[i][3]]]
+RECURSIVE ShOf(_)
+ShOf(r) == [t |-> r[1], s |-> r[2], e |-> r[3], one |-> IF Len(r) = 4 THEN <<ShOf(r[4])>> ELSE <<>>]
+ResOf(res) == [i \in 1..Len(res) |-> ShOf(res[i])]
 SetOfSeq(s) == {s[i] : i \in 1..Len(s)}
 ErrOf(e) == IF Len(e) = 0 THEN NoErr ELSE Err(e[1], e[2], e[3])
 
@@ -60,7 +62,7 @@ Begin ==
   /\ stack' = <<>> /\ ret' = NoRet /\ cache' = [x \in {} |-> 0] /\ calls' = 0 /\ cerr' = NoErr
   /\ done' = TRUE /\ runs' = [x \in {} |-> 0] /\ fails' = {}
   /\ Ev.adm => D!Admissible(Ev.G)      \* the generator's claims are re-asserted by the specification
-  /\ Ev.c06 => D!Productive(Ev.G)
+  /\ Ev.c06 => D!C06Domain(Ev.G)
   /\ T' = IF Ev.adm /\ Props \cap {"C01", "C04"} # {} THEN D!Ends(Ev.G, Ev.w) ELSE <<>>
   /\ apio' = <<>>
   /\ root' = l
